@@ -666,7 +666,7 @@ class Interp:
         suppress: List[Any] = []
         for item in st.items:
             cm = self.eval(item.context_expr, env)
-            if isinstance(cm, App) and cm.op == 'suppress':
+            if isinstance(cm, App) and cm.op in ('suppress', 'call:contextlib.suppress'):
                 suppress.extend(cm.args)
                 continue
             if item.optional_vars is not None:
